@@ -273,6 +273,9 @@ fn check_doc(doc: &CramDoc) -> V {
             if gk != kind || q != quant {
                 return fail(format!("expectation {line:?} read as {gk} {q:?}, grammar says {kind} {quant:?}"));
             }
+            if let Err(m) = crate::c08::expression_as_written(x, line) {
+                return fail(m);
+            }
         }
         if g.exit_code != e.exit_code {
             return fail(format!("exit code {:?}, written {:?}", g.exit_code, e.exit_code));
